@@ -37,7 +37,7 @@ seeded changes and which check catches which in §11.
   invariants, ghost state, lemmas. One contract set, several back ends, strongest first:
   1. **Verus** (unbounded, deductive) on function text **extracted mechanically from `/repo/src` on every run**,
      rewritten only by a fixed, logged list of token-level rules (§2.2), with contracts merged in from side-car files in
-     `/verif/contracts/`. 20 units, ≈ 60 extracted items (functions, closures, types), ≈ 330 verified functions and lemmas (Verus's "verified"
+     `/verif/contracts/`. 19 units, ≈ 60 extracted items (functions, closures, types), ≈ 330 verified functions and lemmas (Verus's "verified"
      count) carrying ≈ 650 contract clauses, 1–4 s per unit.
   2. **Kani, loop-free / full domain** (complete): `ch_width(c) <= c.len_utf8()` for every `char`, both feature sets (K1).
   3. **Kani, bounded**: `wrap_first_fit` with bit-precise IEEE-754 floats, 3 fragments (K2, thorough tier of C07) — labelled *bounded*.
@@ -180,11 +180,33 @@ only if every clause of the statement was discharged by Verus or loop-free Kani 
 ### 2.8 How units are linked
 
 Verus runs one file per unit, so a callee proved in another unit appears in the caller's unit as an `external_body`
-function (or an `axiom`) whose contract is **restated** there, marked "RESTATED from unit Ux" / "contracts established
-elsewhere". Where caller and callee fit in one file they are verified together instead (U12: `fill` is checked against
-the contract of `fill_slow_path` proved in the same file; U11: `wrap` → `wrap_single_line` → slow path; U6, U13–U15, U20:
-the collecting wrapper and the closure). The remaining restated links are listed under A9; each is also an executable
-BEC contract on the real callee, so a drift between restatement and callee shows up there within scope.
+function (or an `axiom`) whose contract is **restated** there, marked "RESTATED from unit Ux". Where caller and callee fit
+in one file they are verified together instead (U12: `fill` is checked against the contract of `fill_slow_path` proved in
+the same file; U11: `wrap` → `wrap_single_line` → slow path; U6, U13–U15, U20: the closure and a *collecting wrapper* that
+turns the per-`next` contract into a contract about the whole stream, which is what callers use). Every restated link was
+audited against the provider's proved text; each is also an executable BEC contract on the real callee, so a drift between
+restatement and callee would show up there within scope.
+
+| consumer (restated) | provider (proved) | relation |
+|---|---|---|
+| U11 `vx_find_words`: words tile the line, cached widths correct | U13 `vx_collect_ascii_words`, U20 `vx_collect_unicode_words` | same clauses (providers prove more); `Custom` separator: A15 |
+| U11 `vx_split_words`: tiling kept, cached widths correct | U14 `vx_split_words_collect` | same clauses |
+| U11 `break_words` (requires cached widths correct): tiling kept | U6 `break_words` | same clause, same precondition |
+| U6 `vx_vec_extend_break_apart` (requires non-empty text) | U15 `vx_break_apart_collect` | same clauses |
+| U11, U13, U20 `vx_word_from` / `word_from_post` | U6 `Word::from` | the five clauses of U6, or a subset |
+| U11 `vx_wrap_algorithm_wrap`: ordered partition | U17 `WrapAlgorithm::wrap` → U1, U2 (`partition`) | same four clauses (`runs_concat` and `concat_lines` are the same fold) |
+| U10 `vx_ascii_find_words_collect`, `vx_wrap_first_fit_1` | U13, U1 | same clauses, plus "the result is a function of the argument" (purity) |
+| U14 `vx_split_points_iter`: increasing char boundaries inside the word | U16 `split_points` | proved for the two built-in splitters; `Custom`: A15 |
+| U12 `wrap_shortcut_line` | U11 `wrap` (clause tagged C05 C09) | same predicate `wrap_shortcut_applies`, same conclusion, in bytes |
+| U15, U20 `vx_skip_ansi_ci` | U3 `skip_ansi_escape_sequence` (any iterator obeying the iterator laws) | instance at `Map<&mut CharIndices, _>` (A4: `map`/`by_ref` only project / borrow) |
+| U20 `strip_ansi_escape_sequences`; `display_width` in U5, U6, U11, U14, U18 | U3 | same postcondition; consumers keep `dw` abstract |
+| U5, U12 `wrap`; U21 `unfill`, `fill` | — | no content: the result is only *named* by an uninterpreted function |
+
+**A correction this audit produced.** U6 used to assume of `break_apart` that its pieces tile the word *for every Word*.
+That is false for a hand-made `Word` with empty text, non-empty whitespace and a large `width` (the field is public):
+`break_apart` yields nothing and the whitespace is lost. The restated contract now requires non-empty text; U15 proves
+exactly that (`vx_break_apart_collect`); `break_words` carries the precondition "cached widths are display widths" (true of
+every `Word` the library makes: proved for `Word::from`, `split_words` and `break_apart`, and threaded through U11).
 """)
 w("## 3. Trusted base (global; each evidence file lists what it used)\n")
 for k,v in props.TRUSTED.items():
@@ -236,8 +258,8 @@ still a VIOLATION):
 
 ## 6. Applicability statement
 
-Levels claimed in MANIFEST: `proof` — C06, C07, C10, C11, C18, C19, C20 (every clause of the statement is a discharged Verus
-obligation or loop-free Kani fact, under the named assumptions); `other` — C01, C02, C03, C04, C05, C08, C09, C12,
+Levels claimed in MANIFEST: `proof` — C06, C07, C10, C11, C12, C18, C19, C20 (every clause of the statement is a discharged Verus
+obligation or loop-free Kani fact, under the named assumptions); `other` — C01, C02, C03, C04, C05, C08, C09,
 C13, C15, C16, C17 (named functions proved for all inputs, named remainder bounded); `exploration` — C14: the deductive
 technique does not apply (relational over two calls of `fill`; no contract within reach expresses it); it is claimed only
 through its bounded executable contract, labelled bounded. `not_applicable` in MANIFEST is empty because every property
@@ -262,7 +284,7 @@ repairs before they were committed.
   statements / conjuncts / declarations, flipped comparisons, inverted `if/else`, expanded `+=`, literal for const,
   `f64::max` call form): **0 false alarms**, 23 verify, 2 undecided (`f64::max(a, b)` call form has no rule; an inverted
   `if/else` whose both branches carry annotations loses an anchor).
-* **SMT-seed stability** (`tools/stability.py`): all 20 units verify under Z3 random seeds 1–8 (max rlimit 17 M for U5 and
+* **SMT-seed stability** (`tools/stability.py`): all 19 units verify under Z3 random seeds 1–8 (max rlimit 17 M for U5 and
   U11). U1 was restructured around an opaque state predicate with step lemmas after it failed under two seeds; a U11
   lemma was split in three for the same reason.
 * **Seeded property-breaking changes**: §11.
